@@ -62,3 +62,32 @@ func VH_C20_thresholds(n int, ed int) {
 	vassert(w.Cfg.QuorumSize() == q, "config-quorum-size-is-the-global-formula")
 	vobserve("q", uint64(q))
 }
+
+// C20 (membership): the configuration's threshold follows the configured membership at every
+// moment: k replicas with symbolic pairwise distinct ids are added one by one (one of them
+// optionally twice); after every addition ReplicaCount is the number of distinct ids added and
+// QuorumSize() is the global formula applied to it.
+func VH_C20_membership(k int) {
+	cfg := core.NewRuntimeConfig(1, nil)
+	vassert(cfg.ReplicaCount() == 0, "empty-config-has-no-replicas")
+	ids := make([]hotstuff.ID, k)
+	for i := range ids {
+		ids[i] = hotstuff.ID(nondetU32("id"))
+		vassume(ids[i] != 0)
+		for j := 0; j < i; j++ {
+			vassume(ids[i] != ids[j])
+		}
+	}
+	again := nondetInt("added-twice") // k: none
+	vassume(again >= 0 && again <= k)
+	for i := range ids {
+		cfg.AddReplica(&hotstuff.ReplicaInfo{ID: ids[i]})
+		if i == again {
+			cfg.AddReplica(&hotstuff.ReplicaInfo{ID: ids[i]})
+			vcover("added-twice")
+		}
+		vassert(cfg.ReplicaCount() == i+1, "replica-count-is-number-of-distinct-ids")
+		vassert(cfg.QuorumSize() == hotstuff.QuorumSize(i+1), "threshold-follows-the-configured-membership")
+	}
+	vobserve("q", uint64(cfg.QuorumSize()))
+}
